@@ -212,7 +212,9 @@ impl Check for C17 {
         let mut r = Rng::new(seed);
         let mut roles = Vec::new();
         for j in 0..r.usize_below(3) {
-            roles.push(gen_role(&mut r, &format!("role{j}"), 1));
+            // sibling roles are listed in an order that is not the alphabetical one: the order of
+            // delegation entries is their priority and has to survive an update
+            roles.push(gen_role(&mut r, &format!("{}{j}", ["zeta", "mid", "alpha"][j % 3]), 1));
         }
         let mut added = gen_targets(&mut r, "new", 3, false);
         let mut top_targets = gen_targets(&mut r, "top", 4, false);
